@@ -21,8 +21,8 @@ R1 = (200.0, 1000.0)
 R2 = (150.0, 1200.0)
 TREFS = {'between': 350.0, 'below': 250.0, 'lastknot': 500.0, 'above': 600.0}
 DEPTH = {'quick': 4, 'thorough': None}
-BOUND = {'quick': '4 reference-temperature placements x 2 classes; 15 pieces x '
-                  '{merge, merge-with-overwrite}; BFS depth 4 from 15 initial '
+BOUND = {'quick': '4 reference-temperature placements x 2 classes; 16 pieces x '
+                  '{merge, merge-with-overwrite}; BFS depth 4 from 16 initial '
                   'states; file level: all set partitions of 5 data over <= 4 '
                   'files x all include orders x 4 nestings x 5 injections',
          'thorough': 'same alphabet, BFS to the fixpoint (complete reachable '
@@ -48,7 +48,7 @@ MANIFEST = dict(
     technique='explicit-state BFS over the real update()/Load transition '
               'functions against a dictionary-union reference model',
     text='The complete reachable state graph (thorough; depth 4 in quick) of '
-         'correlation merging over a 15-piece alphabet with and without '
+         'correlation merging over a 16-piece alphabet with and without '
          'overwrite is explored on the real objects; on every transition the '
          'model decides accept/reject and the resulting union, and failure '
          'atomicity, source immutability, idempotence and confluence are '
@@ -73,6 +73,7 @@ PIECES = {
     'CpB': piece(Cp={400.0: 3.9}),
     'CpBC': piece(Cp={400.0: 3.9, 500.0: 4.7}),
     'CpC0': piece(Cp={500.0: 0.0}),
+    'CpN': piece(Cp={600.0: -2.5}),
     'R2': piece(rng=R2),
     'HS': piece(H=-17.2, S=15.3),
     'FULL': piece(H=-17.2, S=15.3, Cp={300.0: 3.1, 400.0: 3.9, 500.0: 4.7}),
